@@ -6,6 +6,7 @@ CONSTANTS
   FailNs = {}
   PruneTs = {250}
   RgsSnaps = {}
+  ResolveCs = {}
   WithReload = FALSE
 CONSTRAINT Bound
 VIEW View
